@@ -742,7 +742,9 @@ def crawl_case(rng):
                  b'/' + b'x' * 3000, b'/a/../../..', b'http://\xe2\x98\x83.test/', b'/q?' + b'a=b&' * 500, b'mailto:x', b'/con.', b'/nul.txt ']
         b = b'<html><body>' + b''.join(b'<a href="' + l + b'">x</a>' for l in rng.sample(links, rng.randrange(1, 6))) + b'</body></html>'
         raw = b'HTTP/1.1 200 OK\r\nContent-Type: text/html\r\nContent-Length: ' + str(len(b)).encode() + b'\r\n\r\n' + b
-    return {'entry': 'crawl', 'raw': raw, 'hostile': hostile, 'windows_names': rng.random() < 0.3, 'warc': rng.random() < 0.3}
+    return {'entry': 'crawl', 'raw': raw, 'hostile': hostile, 'windows_names': rng.random() < 0.3, 'warc': rng.random() < 0.3,
+            # post-processing of what the server sent: link conversion reads every saved file again after the downloads
+            'convert_links': rng.random() < 0.3}
 
 
 def run_crawl_case(case, part):
@@ -769,6 +771,8 @@ def run_crawl_case(case, part):
             argv += ['--restrict-file-names', 'windows']
         if case['warc']:
             argv += ['--warc-file', os.path.join(tmp, 'w'), '--warc-tempdir', tmp]
+        if case.get('convert_links'):
+            argv += ['--convert-links']
         res = crawl.run_app(argv, {'a.test': addrs[0]})
         rows = crawl.read_table(db) if os.path.exists(db) else []
         log = srv.log.snapshot()
